@@ -148,6 +148,7 @@ def run(chk, tier):
 
     # ---- time range: same update in the radial and status arms, none elsewhere; VCP set
     times(chk, ev, val[ls_], S, contents, mtime, drd, w)
+    data_types(chk, prog)
     # ---- end of input: the open group is pushed
     try:
         ret = loops.exit_value(prog, fn, lp, opaque=OPAQUE)
@@ -238,3 +239,86 @@ def times(chk, ev, s1, S, contents, mtime, drd, w):
     known2 = {("discr", contents): ((1, 1),), ("discr", vb): ((0, 0),)}
     sset2 = sym.prune(sym.rebuild(fld(s1, "volume_coverage_patterns"), {}, known2), known2)
     chk.ob("R-WIRE", FN, sset2 == fld(S, "volume_coverage_patterns"), "without a volume block the VCP set is unchanged", w, key="vcp-set-unchanged")
+
+
+DATA_TYPES = {"reflectivity_data_block": "Reflectivity", "velocity_data_block": "Velocity", "spectrum_width_data_block": "Spectrum Width",
+              "differential_reflectivity_data_block": "Differential Reflectivity", "differential_phase_data_block": "Differential Phase",
+              "correlation_coefficient_data_block": "Correlation Coefficient", "specific_diff_phase_data_block": "Specific Differential Phase"}
+
+
+def data_types(chk, prog):
+    """per-group data-type counts: every counting call is guarded by `is_some()` of one message block and passes that block's own key; seven distinct
+    blocks, seven distinct keys; the counting closure stores get(key).unwrap_or(0) + 1 under the same key (CFG rule over the MIR, guard = immediate dominating test)"""
+    from nx.ir import callee_of, op_local
+    fn = prog.fn(FN)
+    clos = [p for p in prog.closures_of.get(FN, []) if prog.fn(p) is not None]
+    w = fn.where()
+    found = {}
+    counter = None
+    for b, t in fn.calls():
+        name = callee_of(t)
+        if name not in clos or len(t["args"]) != 2:
+            continue
+        # constant key: args[1] is a tuple local built from a &str constant in the same block
+        key = None
+        tup = op_local(t["args"][1])
+        defs = {s["dst"]["l"]: s for s in fn.blocks[b]["stmts"] if s["s"] == "assign" and not s["dst"]["p"]}
+        cur = defs.get(tup)
+        hops = 0
+        while cur is not None and hops < 6:
+            hops += 1
+            if cur.get("rv") == "agg" and cur.get("ops"):
+                nxt = cur["ops"][0]
+            elif cur.get("rv") == "use":
+                nxt = cur["a"]
+            elif cur.get("rv") == "ref":
+                nxt = {"k": "copy", "pl": {"l": cur["pl"]["l"], "p": []}}
+            else:
+                break
+            if nxt.get("k") == "const" and "str" in nxt:
+                key = nxt["str"]
+                break
+            cur = defs.get(nxt["pl"]["l"]) if nxt.get("k") in ("copy", "move") else None
+        # guard: walk the dominator chain to the nearest two-way switch whose condition is `is_some(&(..).field)`
+        field = None
+        idom = fn._idom if getattr(fn, "_idom", None) else (fn.dominators() and fn._idom)
+        x = b
+        while x != 0 and field is None:
+            x = idom[x]
+            tt = fn.term(x)
+            if tt["t"] == "switch":
+                dl = op_local(tt["discr"])
+                for px in fn.pred_map()[x] + [x]:
+                    ct = fn.term(px)
+                    if ct["t"] == "call" and ct["dest"]["l"] == dl and callee_of(ct).endswith("Option::<T>::is_some"):
+                        al = op_local(ct["args"][0])
+                        for s in fn.blocks[px]["stmts"]:
+                            if s["s"] == "assign" and s["dst"]["l"] == al and s.get("rv") == "ref":
+                                names_ = [e.get("name") for e in s["pl"]["p"] if isinstance(e, dict) and "f" in e]
+                                field = names_[-1] if names_ else None
+                        # the counting call must be on the `true` side
+                        true_side = [bb2 for v_, bb2 in tt["arms"] if int(v_) == 1] or [tt["otherwise"]]
+                        if field and not fn.dominates(true_side[0], b):
+                            field = "!" + field
+                break
+        counter = name
+        found[field] = key
+    okk = found == DATA_TYPES
+    chk.ob("R-TABLE", FN, okk, "each of the seven moment blocks, when present, is counted once under its own name" if okk else
+           "block -> counted key is %s, expected %s" % (found, DATA_TYPES), w, key="data-type-table")
+    chk.floor("data-type counting sites", len(found), 7)
+    if counter:
+        ev = sym.Evaluator(prog)
+        try:
+            ev.eval_fn(counter, [("closure", counter, (P("data_types"),)), P("key")])
+            gets = [e for e in ev.effects if e[0].endswith("HashMap::<K, V, S, A>::get")]
+            ins = [e for e in ev.effects if e[0].endswith("HashMap::<K, V, S, A>::insert")]
+            okc = len(gets) == 1 and len(ins) == 1 and gets[0][1][1] == P("key")
+            if okc:
+                k2, v2 = ins[0][1][1], ins[0][1][2]
+                is_add = (v2[0] == "bin" and v2[1] == "Add" and (sym.is_c(v2[2]) and v2[2][1] == 1 or sym.is_c(v2[3]) and v2[3][1] == 1)) or \
+                    (v2[0] == "call" and v2[1].endswith("::add") and sym.is_c(v2[2][1]) and v2[2][1][1] == 1 and gets[0][0] in repr(v2[2][0]))
+                okc = P("key") in sym.atoms(k2) and is_add
+            chk.ob("VN", counter, bool(okc), "the counter stores (previous count or 0) + 1 under the key it was given", prog.fn(counter).where(), key="increment")
+        except sym.Undecided as e:
+            chk.blind("VN", counter, "counting closure undecided: %s" % e)
